@@ -668,6 +668,12 @@ type runObs struct {
 // runChild starts a traced child on root (data in root/data, requests in root/async), lets
 // MustStartAsync resume whatever is there, optionally starts the search, waits for Done and fetches.
 func runChild(root string, spec searchSpec, fresh bool, ing *ingest) (*runObs, error) {
+	return runChildPB(root, spec, fresh, ing, "")
+}
+
+// runChildPB: with pbStart the search is started through the store's real gRPC handler from the
+// StartAsyncSearchRequest the proxy sent
+func runChildPB(root string, spec searchSpec, fresh bool, ing *ingest, pbStart string) (*runObs, error) {
 	st, err := storectl.Start(root)
 	if err != nil {
 		return nil, fmt.Errorf("harness: %w", err)
@@ -705,7 +711,11 @@ func runChild(root string, spec searchSpec, fresh bool, ing *ingest) (*runObs, e
 	if _, err := call(st, "c19.start", childReq{AsyncDir: root + "/async", Parallelism: 1, Spec: spec}); err != nil {
 		return nil, fmt.Errorf("start: %w", err)
 	}
-	if fresh {
+	if fresh && pbStart != "" {
+		if _, err := call(st, "c19.pbstart", childReq{PBHex: pbStart}); err != nil {
+			return nil, fmt.Errorf("search: %w", err)
+		}
+	} else if fresh {
 		if _, err := call(st, "c19.search", childReq{Spec: spec}); err != nil {
 			return nil, fmt.Errorf("search: %w", err)
 		}
@@ -1165,8 +1175,25 @@ func main() {
 			results[i] = runWorld(*seed, i, *tier, nil)
 		}(i)
 	}
+	nclusters := 8
+	if *tier == "thorough" {
+		nclusters = 30
+	}
+	cres := make([]*result, nclusters)
+	for i := 0; i < nclusters; i++ {
+		wg.Add(1)
+		sem <- struct{}{}
+		go func(i int) {
+			defer wg.Done()
+			defer func() { <-sem }()
+			cres[i] = runCluster(*seed, i, *tier)
+		}(i)
+	}
 	wg.Wait()
 	for _, res := range results {
+		flush(res)
+	}
+	for _, res := range cres {
 		flush(res)
 	}
 	if err := cw.Close(); err != nil {
@@ -1199,6 +1226,14 @@ func doReplay(path string, flush func(*result)) {
 	}
 	seed, wi := rp.Seed, 0
 	json.Unmarshal(in["seed"], &seed)
+	if _, ok := in["cluster"]; ok {
+		ci := 0
+		json.Unmarshal(in["cluster"], &ci)
+		res := runCluster(seed, ci, "thorough")
+		fmt.Printf("replay seed=%d cluster=%d: %d cases, %d direct violations\n", seed, ci, len(res.cases), len(res.viols))
+		flush(res)
+		return
+	}
 	json.Unmarshal(in["world"], &wi)
 	var chain []crashPoint
 	json.Unmarshal(in["chain"], &chain)
